@@ -1,1 +1,142 @@
-fn main(){}
+//! `pscv <ID> --tier quick|thorough [--replay <file>]` — model-checking harness for
+//! parity-scale-codec (see /verif/DESIGN.md).
+
+mod checks;
+mod common;
+mod oracle;
+
+use common::*;
+use std::process::Command;
+
+/// Properties for which the death of the checking process is itself a violation.
+const DEATH_IS_VIOLATION: &[&str] = &["C03", "C05", "C09", "C11"];
+
+fn usage() -> ! {
+	eprintln!("usage: pscv <C01..C20> [--tier quick|thorough] [--replay <file>]");
+	std::process::exit(2)
+}
+
+fn run_check(id: &str, tier: Tier) -> i32 {
+	let reg = common::registry();
+	let rep = match id {
+		"C01" => checks::c01::run(tier, &reg),
+		_ => {
+			eprintln!("unknown property {}", id);
+			return 2;
+		},
+	};
+	rep.finish()
+}
+
+fn run_replay(id: &str, path: &str) -> i32 {
+	let reg = common::registry();
+	let text = std::fs::read_to_string(path).expect("replay file readable");
+	let j: serde_json::Value = serde_json::from_str(&text).expect("replay file parses");
+	let case = &j["case"];
+	let sub = case["sub"].as_str().unwrap_or("");
+	let r = match sub.split('.').next().unwrap_or("") {
+		"C01" => checks::c01::replay(&reg, case),
+		_ => {
+			eprintln!("no replayer for sub-check {}", sub);
+			return 2;
+		},
+	};
+	match r {
+		Some(detail) => {
+			eprintln!("[{}] replay reproduces: {}", id, detail);
+			println!("VIOLATION property={} replay={}", id, path);
+			1
+		},
+		None => {
+			eprintln!("[{}] replay: property holds on this case", id);
+			0
+		},
+	}
+}
+
+fn main() {
+	let args: Vec<String> = std::env::args().skip(1).collect();
+	if args.is_empty() {
+		usage();
+	}
+	let mut child = false;
+	let mut id = String::new();
+	let mut tier = match std::env::var("VERIF_TIER").as_deref() {
+		Ok("thorough") => Tier::Thorough,
+		_ => Tier::Quick,
+	};
+	let mut replay: Option<String> = None;
+	let mut i = 0;
+	while i < args.len() {
+		match args[i].as_str() {
+			"--child" => child = true,
+			"--tier" => {
+				i += 1;
+				tier = match args.get(i).map(|s| s.as_str()) {
+					Some("quick") => Tier::Quick,
+					Some("thorough") => Tier::Thorough,
+					_ => usage(),
+				}
+			},
+			"--replay" => {
+				i += 1;
+				replay = Some(args.get(i).cloned().unwrap_or_else(|| usage()));
+			},
+			s if s.starts_with('C') => id = s.to_string(),
+			_ => usage(),
+		}
+		i += 1;
+	}
+	if id.is_empty() {
+		usage();
+	}
+
+	if child {
+		silence_panics();
+		heartbeat_init(&id);
+		let code = match &replay {
+			Some(p) => run_replay(&id, p),
+			None => run_check(&id, tier),
+		};
+		std::process::exit(code);
+	}
+
+	// Parent: run the check in a child process so that a death by signal can be attributed.
+	let exe = std::env::current_exe().expect("own path");
+	let mut cmd = Command::new(exe);
+	cmd.arg("--child").arg(&id).arg("--tier").arg(tier.name());
+	if let Some(p) = &replay {
+		cmd.arg("--replay").arg(p);
+	}
+	let status = cmd.status().expect("spawn child");
+	if let Some(code) = status.code() {
+		std::process::exit(code);
+	}
+	// killed by a signal
+	use std::os::unix::process::ExitStatusExt;
+	let sig = status.signal().unwrap_or(0);
+	let mut units = vec![];
+	if let Ok(rd) = std::fs::read_dir(format!("{}/target/hb/{}", VERIF, id)) {
+		for e in rd.flatten() {
+			if let Ok(s) = std::fs::read_to_string(e.path()) {
+				units.push(s);
+			}
+		}
+	}
+	units.sort();
+	eprintln!("[{}] checking process died with signal {}; units in flight: {:?}", id, sig, units);
+	if DEATH_IS_VIOLATION.contains(&id.as_str()) && replay.is_none() {
+		let body = serde_json::json!({
+			"property": id, "sub": format!("{}.death", id), "key": format!("{}|process-death", id),
+			"detail": format!("checking process died with signal {}", sig),
+			"case": {"sub": format!("{}.death", id), "units_in_flight": units, "tier": tier.name()},
+		});
+		let dir = format!("{}/replays/{}", VERIF, id);
+		let _ = std::fs::create_dir_all(&dir);
+		let path = format!("{}/death-signal-{}.json", dir, sig);
+		let _ = std::fs::write(&path, serde_json::to_string_pretty(&body).unwrap());
+		println!("VIOLATION property={} replay={}", id, path);
+		std::process::exit(1);
+	}
+	std::process::exit(2);
+}
